@@ -825,14 +825,17 @@ class TLSConnection(TLSRecordLayer):
 
         groups = []
         # Send the ECC extensions only if we advertise ECC ciphers
-        if next((cipher for cipher in cipherSuites \
+        # (TLS 1.3 key exchange always needs the groups)
+        if shares is not None or \
+                next((cipher for cipher in cipherSuites \
                 if cipher in CipherSuite.ecdhAllSuites), None) is not None:
             groups.extend(self._curveNamesToList(settings))
             if settings.ec_point_formats:
                 extensions.append(ECPointFormatsExtension().\
                                 create(settings.ec_point_formats))
         # Advertise FFDHE groups if we have DHE ciphers
-        if next((cipher for cipher in cipherSuites
+        if shares is not None or \
+                next((cipher for cipher in cipherSuites
                  if cipher in CipherSuite.dhAllSuites), None) is not None:
             groups.extend(self._groupNamesToList(settings))
         # Send the extension only if it will be non empty
